@@ -696,6 +696,17 @@ fn oracle(r: &Run, from_processor: bool) -> (Vec<(String, String)>, Vec<String>)
         if print_full(&q) != r.full || print_brief(&q) != r.brief {
             or.fail("text-depends-on-hash-order", "a clone with rebuilt HashMaps/HashSets prints different bytes".into());
         }
+        // … and on a fresh OS thread (empty thread-local print context; this worker thread has printed
+        // states of other CPUs before)
+        let fresh = std::thread::scope(|sc| sc.spawn(|| (print_full(ps), print_brief(ps))).join());
+        match fresh {
+            Ok((f, b)) => {
+                if f != r.full || b != r.brief {
+                    or.fail("text-depends-on-thread-history", "printed on a fresh thread the state gives different bytes than on this worker thread (which printed other states before)".into());
+                }
+            }
+            Err(_) => or.fail("harness-panic", "fresh-thread print could not be joined".into()),
+        }
     }
     (or.fails, tags)
 }
@@ -987,7 +998,7 @@ impl Engine for Text {
          unknown and unimplemented streams); (2) `text procx …` / `text proc …`: produced by process_minidump from \
          synthesized dumps. Compared: print and print_brief bytes = Lean printText(alpha_text(state)) bytes. Oracle \
          on the implementation alone: no panic on a state inside WFT, UTF-8, brief is a prefix of full, a second \
-         print and a print of a clone with rebuilt HashMaps/HashSets give the same bytes, thread headers (requesting \
+         print, a print on a fresh OS thread and a print of a clone with rebuilt HashMaps/HashSets give the same bytes, thread headers (requesting \
          thread first and marked, the others in index order, the dump-writer thread skipped), frame lines per \
          block = frames + inline frames numbered from 0, loaded modules in address order each listed once, \
          unloaded modules all listed in (base, end) order. Non-trivial: the state has a thread with a frame or a \
